@@ -1,5 +1,7 @@
 import TucanProofs.Lemmas.LineMachinery
 import TucanProofs.Lemmas.SpliceAny
+import TucanProofs.Lemmas.WriteRead
+import TucanProofs.Examples
 /-!
 # C09 — written molfiles read back as the same molecule, at any line length
 
@@ -8,6 +10,27 @@ About the writer model (`addV30Line`, `atomLine`, `graphToMolfileLines`) and the
 arbitrary length (`f"{x:.6f}"` is not modelled), which is exactly what forces wraps at every position.
 -/
 namespace Tucan
+
+/-- **C09, the whole file.**  For a graph with consecutive labels whose attributes are in the format's
+ranges (non-zero charge within ±15, radical 1–3, mass > 0, blank-free float coordinate tokens of ANY
+length, any bond type, any atom count and index width) the written molfile has no line longer than 79
+characters (80 with the newline; the time-stamped header line aside), and reading it back returns the same
+atoms in the same order with the same element, charge, radical, isotope mass and coordinate tokens, and
+the same bonds with the same bond types (a missing bond type is written, and read back, as 1). -/
+theorem C09_write_read (g : Graph) (hw : g.WF) (hs : g.Simple) (hlab : g.labels = List.range g.numberOfNodes)
+    (hatoms : ∀ n ∈ g.nodes, WritableAtom n)
+    (hbonds : ∀ n ∈ g.nodes, ∀ e ∈ n.nbrs, ∀ bt, e.2.btype = some bt → (intRepr bt).length ≤ intMaxStrDigits)
+    (hsize : (natRepr (g.numberOfNodes + g.numberOfEdges + 1)).length ≤ intMaxStrDigits)
+    (hdr : Str) (hh : GoodHeader hdr) :
+    ∃ lines g', graphToMolfileLines g hdr = .ok lines ∧
+      (∀ l ∈ lines, l.length ≤ 79 ∨ l = hdr) ∧
+      graphFromMolfileText (joinLines lines) = .ok g' ∧
+      g'.labels = g.labels ∧ g'.WF ∧ g'.Simple ∧
+      (∀ n ∈ g.nodes, ∃ z, atomicNumberOf ((n.attrs.sym).getD []) = .ok z ∧
+          g'.attrs? n.id = some (readBackAtom n.attrs z)) ∧
+      (∀ i j bt, (j, ({ btype := some bt } : Bond)) ∈ g'.nbrsD i ↔
+          ∃ d, (j, d) ∈ g.nbrsD i ∧ d.btype.getD 1 = bt) :=
+  write_read g hw hs hlab hatoms hbonds hsize hdr hh
 
 /-- **No line is longer than 80 characters including the newline**, for logical lines of every length. -/
 theorem C09_line_length (line : Str) : ∀ p ∈ addV30Line line, p.length ≤ 79 := addV30Line_length_le line
